@@ -5,3 +5,4 @@ pub mod fold;
 pub mod tok;
 pub mod sess;
 pub mod filt;
+pub mod sub;
